@@ -22,7 +22,8 @@ Mode == IOEnv.MODE
 Full == IOEnv.SIZE = "full"
 EmitOn == "OUT" \in DOMAIN IOEnv
 
-Body(n, salt) == [i \in 1 .. n |-> (i * 7 + (i \div 251) + salt * 13) % 256]
+\* salt 0 = a constant body (equal blocks: content must not matter), otherwise every offset distinct
+Body(n, salt) == IF salt = 0 THEN [i \in 1 .. n |-> 170] ELSE [i \in 1 .. n |-> (i * 7 + (i \div 251) + salt * 13) % 256]
 Seg == << 116 >>                                         \* Uri-Path "t"
 \* token length varies from request to request (0..2 bytes, so the overhead bound stays valid)
 Tok(n) == [i \in 1 .. (n % 3) |-> (n * 17 + i) % 256]
@@ -66,17 +67,19 @@ vars == << cfg, st, pc, asm, app, nextB2, mid, blocks, viol, shaped, h, delivere
 \* a transfer that starts without a Block2 option may find an unfinished earlier transfer of
 \* another body cached for the same key (C08's quantifier): pre = blocks fetched of that one
 InitDl ==
-  /\ \E len \in DlLens, room \in DlRooms, pref \in DlPrefs, red \in DlReduce, set \in DlSets, pre \in { 0, 1, 2 } :
+  /\ \E len \in DlLens, room \in DlRooms, pref \in DlPrefs, red \in DlReduce, set \in DlSets, pre \in { 0, 1, 2 }, bk \in { 0, 1 } :
        /\ (pre > 0 => ~pref.some)
-       /\ cfg = [mode |-> "dl", body |-> Body(len, 1), other |-> Body(100, 5), pre |-> pre,
+       /\ (bk = 0 => (pre = 0 /\ ~red /\ set = 0))
+       /\ cfg = [mode |-> "dl", body |-> Body(len, bk), other |-> Body(100, 5), pre |-> pre,
                  M |-> Min2(1280, Max2(RespNP(set), ReqNP) + room), pref |-> pref, reduce |-> red, set |-> set]
   /\ nextB2 = IF cfg.pref.some THEN Some([num |-> 0, more |-> FALSE, szx |-> cfg.pref.v]) ELSE None
   /\ pc = IF cfg.pre > 0 THEN "pre" ELSE "send"
 
 InitUl ==
   /\ \E len \in UlLens, szx \in UlSzx, dups \in (IF Mode = "ulperm" THEN { 1 } ELSE UlDups), ab \in (IF Mode = "ulperm" THEN { 0 } ELSE UlAbandon) :
-     \E order \in UlOrders(IF len = 0 THEN 1 ELSE (len + SizeOf(szx) - 1) \div SizeOf(szx)) :
-       cfg = [mode |-> "ul", pre |-> 0, order |-> order, body |-> Body(len, 2), other |-> Body(7 * SizeOf(szx) + 5, 9), szx |-> szx, dups |-> dups, abandon |-> ab,
+     \E order \in UlOrders(IF len = 0 THEN 1 ELSE (len + SizeOf(szx) - 1) \div SizeOf(szx)), bk \in { 0, 2 } :
+       /\ (bk = 0 => ab = 0)
+       /\ cfg = [mode |-> "ul", pre |-> 0, order |-> order, body |-> Body(len, bk), other |-> Body(7 * SizeOf(szx) + 5, 9), szx |-> szx, dups |-> dups, abandon |-> ab,
               M |-> NonPayload(MkReq(3, 1, Some([num |-> 300, more |-> TRUE, szx |-> szx]), None, << >>)) + 12 + SizeOf(szx) + 40]
   /\ nextB2 = None
   /\ pc = IF cfg.abandon > 0 THEN "abandon" ELSE "upload"
